@@ -13,7 +13,8 @@ SPEC = tlc.SPEC_DIR
 
 
 def run_mc(defs, workdir, own, max_pause=0, max_cancel=0, max_steps=14, known=(), emit=True,
-           workers=16, timeout=1200, simulate=None, seed=None, tag="mc", bound_check=False, max_rerun=0):
+           workers=16, timeout=1200, simulate=None, seed=None, tag="mc", bound_check=False, max_rerun=0,
+           intended=False):
     """-> dict(states, distinct, wall, rc, leaves=[{def, sched, digest}], violated, out)"""
     dpath = os.path.join(workdir, tag + "_defs.json")
     with open(dpath, "w") as f:
@@ -22,8 +23,8 @@ def run_mc(defs, workdir, own, max_pause=0, max_cancel=0, max_steps=14, known=()
     q = lambda xs: "{" + ", ".join('"%s"' % x for x in xs) + "}"
     with open(cfg, "w") as f:
         f.write("SPECIFICATION Spec\nCONSTANTS\n  MaxPause = %d\n  MaxCancel = %d\n  MaxSteps = %d\n  MaxRerun = %d\n"
-                "  Own = %s\n  KnownSigs = %s\nINVARIANT NoViolation\n%sVIEW View\nCHECK_DEADLOCK FALSE\n"
-                % (max_pause, max_cancel, max_steps, max_rerun, q(own), q(known),
+                "  Own = %s\n  KnownSigs = %s\n  Deviations <- %s\nINVARIANT NoViolation\n%sVIEW View\nCHECK_DEADLOCK FALSE\n"
+                % (max_pause, max_cancel, max_steps, max_rerun, q(own), q(known), "Intended" if intended else "AsCode",
                    ("INVARIANT EmitLeaves\n" if emit else "") + ("INVARIANT BoundNotHit\n" if bound_check else "")))
     try:
         res = tlc.run("MC", cfg=os.path.basename(cfg), env={"DEFS_FILE": dpath}, workers=workers,
